@@ -136,6 +136,12 @@ def handle (args : List String) : String :=
       let lo := if j1 ≥ j2 then j1 - j2 else j2 - j1
       let js := (List.range (j1 + j2 + 1)).filter fun j => j ≥ lo && (j - lo) % 2 == 0
       return " ".intercalate (js.map fun j => s!"{j}|" ++ ";".intercalate ((cgTable j1 j2 j).map fun e => s!"{e.1}:{ratStr e.2}"))
+  | ["ito", S] => Id.run do
+      let some S := S.toNat? | return "bad-op"
+      if S < 1 then return "error:assert"
+      if S > 10 then return "bad-op"
+      return " ".intercalate ((List.range (S + 1)).map fun k =>
+        s!"{2 * k}|" ++ ";".intercalate ((tensorOpTable S (2 * k)).map fun e => s!"{e.1}:{ratStr e.2}"))
   | ["rot2", m, n] => Id.run do
       let some m := m.toInt? | return "bad-op"
       let some n := n.toInt? | return "bad-op"
